@@ -60,6 +60,14 @@ class _Base(Persistent):
             gna = typ_gna[1:]
             return (func, (typ,) + gna, state)
 
+        def __copy__(self):
+            # copy.copy() must not go through __reduce__: that would build
+            # an object of the C class around this object's (shared)
+            # pure-Python children.
+            new = type(self)()
+            new.__setstate__(self.__getstate__())
+            return new
+
         @property
         def __class__(self):
             type_self = type(self)
